@@ -1953,7 +1953,6 @@ func okLocalStore(st *ssa.Store) bool {
 	return false
 }
 
-
 // engineRule (C18.engine): the repository's own interactive engine (package debugger) evaluates only what the
 // user typed (watch expressions read from strings); the form it is handed by the evaluator never flows into
 // an evaluating call - evaluating (or macro-expanding) it a second time would duplicate its effects.
@@ -2091,7 +2090,7 @@ func engineRule(w *World, r *Report, e *Engine) {
 				}
 				idx := -1
 				switch {
-				case fnPkgPath(callee) == modPath && (callee.Name() == "EVAL" || callee.Name() == "eval_ast"):
+				case fnPkgPath(callee) == modPath && (callee == w.Fn("", "EVAL") || callee == w.Fn("", "eval_ast")):
 					idx = 1
 				case fnPkgPath(callee) == modPath+"/types" && callee.Name() == "Apply":
 					idx = 1
@@ -2111,12 +2110,13 @@ func engineRule(w *World, r *Report, e *Engine) {
 	r.floor("C18.engine", "evaluating calls in package debugger", n, 1)
 }
 
-
 // tryShapeRule (C03.shape): the operands of the try form are split by its grammar
-//   (try body… )                         body = form[1:]
-//   (try body… (catch s h…))             body = form[1:len-1]  bind = last[1]     handler = last[2:]
-//   (try body… (finally f…))             body = form[1:len-1]  finally = last[1:]
-//   (try body… (catch s h…) (finally f…)) body = form[1:len-2]  bind = prelast[1]  handler = prelast[2:]  finally = last[1:]
+//
+//	(try body… )                         body = form[1:]
+//	(try body… (catch s h…))             body = form[1:len-1]  bind = last[1]     handler = last[2:]
+//	(try body… (finally f…))             body = form[1:len-1]  finally = last[1:]
+//	(try body… (catch s h…) (finally f…)) body = form[1:len-2]  bind = prelast[1]  handler = prelast[2:]  finally = last[1:]
+//
 // Every list literal built in the try region from a slice of the form / of a clause must be one of
 // these, in the block where the corresponding clause tests hold.
 func tryShapeRule(m *evalModel, r *Report) {
@@ -2132,78 +2132,78 @@ func tryShapeRule(m *evalModel, r *Report) {
 	}
 	n := 0
 	scan := func(fn *ssa.Function, inScope func(*ssa.BasicBlock) bool, form string) {
-	X := form + ".(types.List).Val"
-	last1 := X + "[len(" + X + ")-1]"
-	last2 := X + "[len(" + X + ")-2]"
-	lastAlt := []string{last1, last2, X + "[1]", X + "[2]", "φ"} // `last`/`prelast` are phis over the length switch
-	want := map[string]bool{}
-	add := func(f string, args ...interface{}) { want[fmt.Sprintf(f, args...)] = true }
-	add("%s[1:]", X)
-	add("%s[1:len(%s)-1]", X, X)
-	add("%s[1:len(%s)-2]", X, X)
-	for _, l := range lastAlt {
-		add("%s.(types.List).Val[2:]", l)
-		add("%s.(types.List).Val[1:]", l)
-	}
-	for _, b := range fn.Blocks {
-		if !inScope(b) {
-			continue
+		X := form + ".(types.List).Val"
+		last1 := X + "[len(" + X + ")-1]"
+		last2 := X + "[len(" + X + ")-2]"
+		lastAlt := []string{last1, last2, X + "[1]", X + "[2]", "φ"} // `last`/`prelast` are phis over the length switch
+		want := map[string]bool{}
+		add := func(f string, args ...interface{}) { want[fmt.Sprintf(f, args...)] = true }
+		add("%s[1:]", X)
+		add("%s[1:len(%s)-1]", X, X)
+		add("%s[1:len(%s)-2]", X, X)
+		for _, l := range lastAlt {
+			add("%s.(types.List).Val[2:]", l)
+			add("%s.(types.List).Val[1:]", l)
 		}
-		for _, in := range b.Instrs {
-			sl, ok := in.(*ssa.Slice)
-			if !ok || !lispContainer(sl.X.Type()) {
+		for _, b := range fn.Blocks {
+			if !inScope(b) {
 				continue
 			}
-			// only slices that become the Val of a list literal (the split), not argument lists
-			isSplit := false
-			for _, ref := range *sl.Referrers() {
-				if st, ok := ref.(*ssa.Store); ok {
-					if fa, ok := st.Addr.(*ssa.FieldAddr); ok && fieldName(fa.X.Type(), fa.Field) == "Val" {
-						isSplit = true
-					}
+			for _, in := range b.Instrs {
+				sl, ok := in.(*ssa.Slice)
+				if !ok || !lispContainer(sl.X.Type()) {
+					continue
 				}
-			}
-			if !isSplit {
-				continue
-			}
-			n++
-			c := canonVal(m.e, sl)
-			// which clause tests hold here
-			hasCatch, hasFinally := false, false
-			for _, d := range fn.Blocks {
-				if iff := blockIf(d); iff != nil && inScope(d) {
-					cond, edge := iff.Cond, 0
-					if bo, ok := cond.(*ssa.BinOp); ok && bo.Op == token.NEQ {
-						// x != "catch": the clause is present on the false edge
-						cond, edge = &ssa.BinOp{Op: token.EQL, X: bo.X, Y: bo.Y}, 1
-					}
-					if _, s, ok := strEq(cond); ok && edgeDominates(d, edge, b) {
-						if s == "catch" {
-							hasCatch = true
-						}
-						if s == "finally" {
-							hasFinally = true
+				// only slices that become the Val of a list literal (the split), not argument lists
+				isSplit := false
+				for _, ref := range *sl.Referrers() {
+					if st, ok := ref.(*ssa.Store); ok {
+						if fa, ok := st.Addr.(*ssa.FieldAddr); ok && fieldName(fa.X.Type(), fa.Field) == "Val" {
+							isSplit = true
 						}
 					}
 				}
-			}
-			okShape := want[c]
-			detail := c
-			// the body slice must match the clauses present
-			if strings.HasPrefix(c, X+"[1:") {
-				switch {
-				case hasCatch && hasFinally:
-					okShape = c == fmt.Sprintf("%s[1:len(%s)-2]", X, X)
-				case hasCatch || hasFinally:
-					okShape = c == fmt.Sprintf("%s[1:len(%s)-1]", X, X)
-				default:
-					okShape = c == X+"[1:]"
+				if !isSplit {
+					continue
 				}
-				detail += fmt.Sprintf(" (catch clause: %v, finally clause: %v)", hasCatch, hasFinally)
+				n++
+				c := canonVal(m.e, sl)
+				// which clause tests hold here
+				hasCatch, hasFinally := false, false
+				for _, d := range fn.Blocks {
+					if iff := blockIf(d); iff != nil && inScope(d) {
+						cond, edge := iff.Cond, 0
+						if bo, ok := cond.(*ssa.BinOp); ok && bo.Op == token.NEQ {
+							// x != "catch": the clause is present on the false edge
+							cond, edge = &ssa.BinOp{Op: token.EQL, X: bo.X, Y: bo.Y}, 1
+						}
+						if _, s, ok := strEq(cond); ok && edgeDominates(d, edge, b) {
+							if s == "catch" {
+								hasCatch = true
+							}
+							if s == "finally" {
+								hasFinally = true
+							}
+						}
+					}
+				}
+				okShape := want[c]
+				detail := c
+				// the body slice must match the clauses present
+				if strings.HasPrefix(c, X+"[1:") {
+					switch {
+					case hasCatch && hasFinally:
+						okShape = c == fmt.Sprintf("%s[1:len(%s)-2]", X, X)
+					case hasCatch || hasFinally:
+						okShape = c == fmt.Sprintf("%s[1:len(%s)-1]", X, X)
+					default:
+						okShape = c == X+"[1:]"
+					}
+					detail += fmt.Sprintf(" (catch clause: %v, finally clause: %v)", hasCatch, hasFinally)
+				}
+				r.check(okShape, "C03.shape", fn, "operands taken for a part of the try form: "+nz(m.w.srcExpr(sl), c), sl.Pos(), detail, "the slice "+detail+" does not match the grammar of the try form: a body form, the catch symbol or a handler form is dropped or misplaced")
 			}
-			r.check(okShape, "C03.shape", fn, "operands taken for a part of the try form: "+nz(m.w.srcExpr(sl), c), sl.Pos(), detail, "the slice "+detail+" does not match the grammar of the try form: a body form, the catch symbol or a handler form is dropped or misplaced")
 		}
-	}
 	}
 	scan(m.EVAL, func(b *ssa.BasicBlock) bool { return reg[b] }, form)
 	// functions the region hands the whole form to that only take it apart
@@ -2267,7 +2267,6 @@ func canonForm(m *evalModel) string {
 	}
 	return ""
 }
-
 
 // newLispErrorRule decides what NewLispError(obj, ast) returns on every path: either a copy of obj itself
 // (asserted to LispError, not looked up in its Unwrap chain) whose cursor alone is overwritten, or a new
@@ -2388,7 +2387,6 @@ func newLispErrorRule(w *World, r *Report, rule string) {
 	r.floor(rule, "returns of NewLispError", n, 2)
 }
 
-
 // errorReturns: like evalModel.returns, for any function whose last result is an error: (return, first result or nil, error result).
 func errorReturns(fn *ssa.Function) [][3]interface{} {
 	var out [][3]interface{}
@@ -2407,7 +2405,6 @@ func errorReturns(fn *ssa.Function) [][3]interface{} {
 	}
 	return out
 }
-
 
 // carriesExistingError: v is, positions or wraps an error value that existed before (the result of a call other
 // than an error constructor, a parameter, a variable) - as opposed to an error constructed on the spot.
